@@ -1009,11 +1009,18 @@ def graphql_schema(
         id_type: graphql.GraphQLScalarType = graphql.GraphQLID
     else:
         id_deserializer, id_serializer = id_encoding
+        parse_id_literal = graphql.GraphQLID.parse_literal
+        if id_deserializer is not None:
+            # IDs written in the query are encoded like the ones passed by variables
+
+            def parse_id_literal(value_node, variables=None, decode=id_deserializer):
+                return decode(graphql.GraphQLID.parse_literal(value_node, variables))
+
         id_type = graphql.GraphQLScalarType(
             name="ID",
             serialize=id_serializer or graphql.GraphQLID.serialize,
             parse_value=id_deserializer or graphql.GraphQLID.parse_value,
-            parse_literal=graphql.GraphQLID.parse_literal,
+            parse_literal=parse_id_literal,
             description=graphql.GraphQLID.description,
         )
 
